@@ -68,6 +68,7 @@ static void crash_point(int phase) {
 void w_fd_track_enable(int on) { fd_track = on; }
 static void fd_opened(int fd) { if (fd >= 0 && fd < W_MAXFD) { fds[fd].open = 1; __atomic_add_fetch(&fds[fd].opens, 1, __ATOMIC_RELAXED); } }
 void w_fd_mark_owned(int fd) { (void)fd; }
+void w_fd_note_open(int fd) { fd_opened(fd); }
 static void fd_closed(int fd, int rc) {
 	if (fd < 0 || fd >= W_MAXFD) return;
 	if (fds[fd].opens == 0) { if (fd_track) __atomic_add_fetch(&fd_unowned, 1, __ATOMIC_RELAXED); return; }
